@@ -37,8 +37,8 @@ CONSTANTS MaxParams,   \* explicit rules have 0..MaxParams routing parameters (o
           MaxCalls,    \* requests tried per rule in one behaviour
           Mutant       \* "none" for the design; anything else is a self-test mutant TLC must reject
 
-VARIABLES pc, rule, want, cur, req, calls, pidx, i, hdr, present, text, sent
-vars == <<pc, rule, want, cur, req, calls, pidx, i, hdr, present, text, sent>>
+VARIABLES pc, rule, want, cur, todo, req, calls, pidx, i, hdr, present, text, sent
+vars == <<pc, rule, want, cur, todo, req, calls, pidx, i, hdr, present, text, sent>>
 
 -----------------------------------------------------------------------------
 (* Characters, segments, values                                            *)
@@ -62,20 +62,20 @@ NoTemplate == [toks |-> <<>>, from |-> 0, to |-> 0, key |-> ""]
 (* segments.  The capture is what the tokens from..to took.                *)
 RECURSIVE SumTo(_, _)
 SumTo(f, n) == IF n = 0 THEN 0 ELSE f[n] + SumTo(f, n - 1)
-Widths(toks, w) == [j \in 1..Len(toks) |-> IF toks[j].kind = "dstar" THEN w[j] ELSE 1]
-Upto(toks, w, j) == SumTo(Widths(toks, w), j)          \* segments taken by tokens 1..j
-Group(toks, w, v, j) == SubSeq(v, Upto(toks, w, j - 1) + 1, Upto(toks, w, j))
+DIdx(toks) == {j \in 1..Len(toks) : toks[j].kind = "dstar"}
+DWidths(v) == IF Mutant = "dstar_as_star" THEN {1} ELSE 0..Len(v)
+(* End(toks, w)[j] = number of segments taken by tokens 1..j when the `**` tokens take w[.] segments *)
+End(toks, w) == LET ws == [j \in 1..Len(toks) |-> IF toks[j].kind = "dstar" THEN w[j] ELSE 1]
+                IN [j \in 0..Len(toks) |-> SumTo(ws, j)]
 TokFits(tok, g) == CASE tok.kind = "lit"  -> g = <<tok.s>>
                      [] tok.kind = "star" -> Len(g) = 1 /\ g[1] # NoSeg
                      [] OTHER             -> TRUE
-DIdx(toks) == {j \in 1..Len(toks) : toks[j].kind = "dstar"}
-DWidths(v) == IF Mutant = "dstar_as_star" THEN {1} ELSE 0..Len(v)
-Splits(toks, v) == {w \in [DIdx(toks) -> DWidths(v)] :
-                      /\ Upto(toks, w, Len(toks)) = Len(v)
-                      /\ \A j \in 1..Len(toks) : TokFits(toks[j], Group(toks, w, v, j))}
+FitsAll(toks, v, e) == /\ e[Len(toks)] = Len(v)
+                       /\ \A j \in 1..Len(toks) : TokFits(toks[j], SubSeq(v, e[j - 1] + 1, e[j]))
+Splits(toks, v) == {w \in [DIdx(toks) -> DWidths(v)] : FitsAll(toks, v, End(toks, w))}
 Matches(t, v) == Splits(t.toks, v) # {}
-CaptureBy(t, v, w) == SubSeq(v, Upto(t.toks, w, t.from - 1) + 1, Upto(t.toks, w, t.to))
-Captures(t, v) == {CaptureBy(t, v, w) : w \in Splits(t.toks, v)}
+CaptureBy(t, v, e) == SubSeq(v, e[t.from - 1] + 1, e[t.to])
+Captures(t, v) == {CaptureBy(t, v, End(t.toks, w)) : w \in Splits(t.toks, v)}
 Capture(t, v) == CHOOSE c \in Captures(t, v) : TRUE
 
 (* The generative reading of the same sentence, used to cross-check Matches *)
@@ -93,40 +93,42 @@ WFTemplate(t) == /\ Len(t.toks) >= 1 /\ 1 <= t.from /\ t.from <= t.to /\ t.to <=
 (* Fields.  A field path is a sequence of proto field names; the header    *)
 (* key is the raw dotted path, the Python attribute path suffixes every    *)
 (* reserved word with "_".                                                 *)
-ReservedWords == {"type"}          \* non-keyword reserved names of gapic.utils.reserved_names used below
-AllPaths == {<<"name">>, <<"other">>, <<"type">>, <<"sub", "name">>, <<"sub", "type">>}
+ReservedWords == {"type", "class"} \* names of gapic.utils.reserved_names used below (`class` is also a keyword)
+AllPaths == {<<"name">>, <<"other">>, <<"type">>, <<"sub", "name">>, <<"sub", "type">>,
+             <<"class">>, <<"sub", "class">>}
 Dot(path) == IF Len(path) = 1 THEN path[1] ELSE path[1] \o "." \o path[2]
 Suffixed(path) == [j \in 1..Len(path) |-> IF path[j] \in ReservedWords THEN path[j] \o "_" ELSE path[j]]
 AttrPath(path) == Dot(Suffixed(path))
 AllKeys == {Dot(p) : p \in AllPaths}
 (* the proto-plus view of the request: attribute path -> value of the field with that original name *)
-PyView(r) == [a \in {AttrPath(p) : p \in AllPaths} |-> r[Dot(CHOOSE p \in AllPaths : AttrPath(p) = a)]]
-ReadAttr(r, path) == PyView(r)[AttrPath(path)]
+RawOfAttr == [a \in {AttrPath(p) : p \in AllPaths} |-> Dot(CHOOSE p \in AllPaths : AttrPath(p) = a)]
+ReadAttr(r, path) == r[RawOfAttr[AttrPath(path)]]
 ZeroReq == [f \in AllKeys |-> <<>>]
 
 -----------------------------------------------------------------------------
 (* Explicit routing (google.api.routing)                                   *)
 KeyOf(p) == IF p.tmpl = NoTemplate THEN Dot(p.field) ELSE p.tmpl.key
-Contributes(p, r) == LET v == ReadAttr(r, p.field) IN
-                       /\ v # <<>>
-                       /\ \/ p.tmpl = NoTemplate
-                          \/ (Matches(p.tmpl, v) /\ ~TextEmpty(Capture(p.tmpl, v)))
-Contribution(p, r) == IF p.tmpl = NoTemplate THEN ReadAttr(r, p.field)
-                      ELSE Capture(p.tmpl, ReadAttr(r, p.field))
+(* the set of contributions of one parameter: empty, or the one value it sends *)
+Contrib(p, r) == LET v == ReadAttr(r, p.field) IN
+                 IF v = <<>> THEN {}                                    \* field empty: nothing
+                 ELSE IF p.tmpl = NoTemplate THEN {v}                   \* no template: the whole field
+                 ELSE {c \in Captures(p.tmpl, v) : ~TextEmpty(c)}       \* matches and captures something
 Put(h, key, val) == {e \in h : e[1] # key} \cup {<<key, val>>}
 PutFirst(h, key, val) == IF \E e \in h : e[1] = key THEN h ELSE h \cup {<<key, val>>}
-StepParam(h, p, r) == IF ~Contributes(p, r) THEN h
-                      ELSE IF Mutant = "first_wins" THEN PutFirst(h, KeyOf(p), Contribution(p, r))
-                      ELSE Put(h, KeyOf(p), Contribution(p, r))
+StepParam(h, p, r) == LET c == Contrib(p, r) IN
+                      IF c = {} THEN h
+                      ELSE IF Mutant = "first_wins" THEN PutFirst(h, KeyOf(p), CHOOSE x \in c : TRUE)
+                      ELSE Put(h, KeyOf(p), CHOOSE x \in c : TRUE)
 (* the header as a left fold: LAST parameter wins per key *)
 RECURSIVE FoldParams(_, _, _)
 FoldParams(params, n, r) == IF n = 0 THEN {} ELSE StepParam(FoldParams(params, n - 1, r), params[n], r)
 ExplicitHeader(params, r) == FoldParams(params, Len(params), r)
 (* the same thing said without a fold: per key, the contributing parameter of highest index *)
 LastWins(params, r) ==
-    LET C == {j \in 1..Len(params) : Contributes(params[j], r)}
+    LET cs == [j \in 1..Len(params) |-> Contrib(params[j], r)]
+        C  == {j \in 1..Len(params) : cs[j] # {}}
         Wn == {j \in C : \A h \in C : KeyOf(params[h]) = KeyOf(params[j]) => h <= j}
-    IN {<<KeyOf(params[j]), Contribution(params[j], r)>> : j \in Wn}
+    IN {<<KeyOf(params[j]), CHOOSE x \in cs[j] : TRUE>> : j \in Wn}
 
 (* Implicit routing: one pair per variable of the PRIMARY http binding     *)
 PrimaryVars(rl) == rl.http[IF Mutant = "additional_binding" THEN Len(rl.http) ELSE 1]
@@ -180,16 +182,18 @@ NoRaw(t) == /\ \A j \in 1..Len(t) : ~IsRaw(t[j])
 
 -----------------------------------------------------------------------------
 (* The quantifier: pools the rule builder draws from                       *)
-Bases == CASE Pool = "small" -> {<<Star>>, <<DStar>>, <<Lit(P), Star, DStar>>}
+Bases == CASE Pool = "keyword" -> {}
+           [] Pool = "small" -> {<<Star>>, <<DStar>>, <<Lit(P), Star, DStar>>}
            [] Pool = "mid"   -> {<<Star>>, <<DStar>>, <<Lit(P), Star>>, <<Lit(P), Star, DStar>>,
                                  <<Lit(P), Star, Lit(I), Star>>}
            [] OTHER          -> {<<Star>>, <<DStar>>, <<Lit(P), Star>>, <<Lit(P), DStar>>, <<Lit(P), Star, DStar>>,
                                  <<Lit(P), Star, Lit(I), Star>>, <<Lit(P), Star, Lit(T), Star>>,
                                  <<Lit(P), Star, Lit(I), Star, DStar>>, <<Lit(P), Star, Lit(I), Star, Lit(T), Star>>}
 CapKeys == CASE Pool = "small" -> {"k"} [] Pool = "mid" -> {"k", "name"} [] OTHER -> {"k", "table_id", "name"}
-ParamPaths == CASE Pool = "small" -> {<<"name">>, <<"sub", "type">>}
+ParamPaths == CASE Pool = "keyword" -> {<<"class">>}
+                [] Pool = "small" -> {<<"name">>, <<"sub", "type">>}
                 [] Pool = "mid"   -> {<<"name">>, <<"other">>, <<"sub", "name">>, <<"type">>}
-                [] OTHER          -> AllPaths
+                [] OTHER          -> {<<"name">>, <<"other">>, <<"type">>, <<"sub", "name">>, <<"sub", "type">>}
 Ranges(b) == IF Pool = "small"
              THEN {<<1, Len(b)>>} \cup (IF Len(b) > 1 THEN {<<1, Len(b) - 1>>, <<2, 2>>} ELSE {})
              ELSE {<<f, t>> : f \in 1..Len(b), t \in 1..Len(b)}
@@ -197,11 +201,16 @@ TemplatesOn(b) == IF b = <<>> THEN {NoTemplate}
                   ELSE {[toks |-> b, from |-> r[1], to |-> r[2], key |-> key] :
                           r \in {x \in Ranges(b) : x[1] <= x[2]}, key \in CapKeys}
 (* variables of http path templates: `{f}`, `{f=*}`, `{f=projects/*}` ...; `**` only in the last variable *)
-VarToks == CASE Pool = "small" -> {<<Star>>, <<Lit(P), Star>>, <<DStar>>}
+VarToks == CASE Pool = "keyword" -> {<<Star>>}
+             [] Pool = "small" -> {<<Star>>, <<Lit(P), Star>>, <<DStar>>}
              [] OTHER          -> {<<Star>>, <<Lit(P), Star>>, <<Lit(P), Star, Lit(I), Star>>, <<DStar>>, <<Lit(P), Star, DStar>>}
-VarPaths == IF Pool = "small" THEN {<<"name">>, <<"type">>, <<"sub", "name">>} ELSE AllPaths
-ExplicitBindings == {<<>>, <<[field |-> <<"name">>, toks |-> <<DStar>>]>>}   \* http rule of an explicitly routed method
-Additional == {<<>>, <<[field |-> <<"other">>, toks |-> <<Star>>]>>}         \* optional additional binding
+VarPaths == CASE Pool = "keyword" -> {<<"sub", "class">>}
+              [] Pool = "small" -> {<<"name">>, <<"type">>, <<"sub", "name">>}
+              [] OTHER -> {<<"name">>, <<"other">>, <<"type">>, <<"sub", "name">>, <<"sub", "type">>}
+\* http rule of an explicitly routed method: no variable, or one the routing annotation must take precedence over
+ExplicitBindings == IF Pool = "keyword" THEN {<<>>} ELSE {<<>>, <<[field |-> <<"name">>, toks |-> <<DStar>>]>>}
+\* optional additional binding (never used for the header)
+Additional == IF Pool = "keyword" THEN {<<>>} ELSE {<<>>, <<[field |-> <<"other">>, toks |-> <<Star>>]>>}
 EmptyRule == [explicit |-> FALSE, params |-> <<>>, http |-> <<>>]
 
 (* request values derived from the rule: empty, matching (plain / needing escaping / with and without a    *)
@@ -219,90 +228,96 @@ FieldsRead(rl) == {Dot(rl.params[j].field) : j \in 1..Len(rl.params)}
                   \cup {Dot(v.field) : v \in UNION {ToSet(rl.http[b]) : b \in 1..Len(rl.http)}}
 ValuesFor(rl, key) == {<<>>} \cup UNION {ValuesOf(rl.params[j].tmpl.toks) : j \in ParamsOn(rl, key)}
                              \cup UNION {LeanValuesOf(v.toks) : v \in VarsOn(rl, key)}
-Reqs(rl) == {[f \in AllKeys |-> IF f \in FieldsRead(rl) THEN g[f] ELSE <<>>] :
-               g \in {h \in [FieldsRead(rl) -> UNION {ValuesFor(rl, f) : f \in FieldsRead(rl)}] :
-                        \A f \in FieldsRead(rl) : h[f] \in ValuesFor(rl, f)}}
-
 -----------------------------------------------------------------------------
 PathNames == <<"sync", "async", "rest">>
 NoneSent == [p \in ToSet(PathNames) |-> [st |-> "none", present |-> FALSE, pairs |-> {}]]
 NoCur == [field |-> <<>>, toks |-> <<>>]
 
-Init == /\ pc = "kind" /\ rule = EmptyRule /\ want = 0 /\ cur = NoCur /\ req = ZeroReq /\ calls = 0
+Init == /\ pc = "kind" /\ rule = EmptyRule /\ want = 0 /\ cur = NoCur /\ todo = {} /\ req = ZeroReq /\ calls = 0
         /\ pidx = 0 /\ i = 0 /\ hdr = {} /\ present = FALSE /\ text = <<>> /\ sent = NoneSent
 
 (* ---- building the rule (input space) ---- *)
 PickKind(e) == /\ pc = "kind"
                /\ rule' = [rule EXCEPT !.explicit = e]
                /\ pc' = IF e THEN "elen" ELSE "ilen"
-               /\ UNCHANGED <<want, cur, req, calls, pidx, i, hdr, present, text, sent>>
+               /\ UNCHANGED <<want, cur, todo, req, calls, pidx, i, hdr, present, text, sent>>
+ToReq(rl) == /\ pc' = "req" /\ todo' = FieldsRead(rl) /\ req' = ZeroReq
 PickExplicit(n, b) == /\ pc = "elen"
                       /\ rule' = [rule EXCEPT !.http = <<b>>]
-                      /\ want' = n /\ pc' = IF n = 0 THEN "req" ELSE "ptoks"
-                      /\ UNCHANGED <<cur, req, calls, pidx, i, hdr, present, text, sent>>
+                      /\ want' = n
+                      /\ IF n = 0 THEN ToReq(rule') ELSE pc' = "ptoks" /\ UNCHANGED <<todo, req>>
+                      /\ UNCHANGED <<cur, calls, pidx, i, hdr, present, text, sent>>
 PickField(f, b) == /\ pc = "ptoks"
                    /\ Cardinality({rule.params[j].field : j \in 1..Len(rule.params)} \cup {f}) <= 2
                    /\ cur' = [field |-> f, toks |-> b] /\ pc' = "pcap"
-                   /\ UNCHANGED <<rule, want, req, calls, pidx, i, hdr, present, text, sent>>
+                   /\ UNCHANGED <<rule, want, todo, req, calls, pidx, i, hdr, present, text, sent>>
 AddParam(t) == /\ pc = "pcap"
                /\ rule' = [rule EXCEPT !.params = Append(@, [field |-> cur.field, tmpl |-> t])]
-               /\ pc' = IF Len(rule.params) + 1 = want THEN "req" ELSE "ptoks"
+               /\ IF Len(rule.params) + 1 = want THEN ToReq(rule') ELSE pc' = "ptoks" /\ UNCHANGED <<todo, req>>
                /\ cur' = NoCur
-               /\ UNCHANGED <<want, req, calls, pidx, i, hdr, present, text, sent>>
+               /\ UNCHANGED <<want, calls, pidx, i, hdr, present, text, sent>>
 PickImplicit(n, a) == /\ pc = "ilen"
                       /\ rule' = [rule EXCEPT !.http = IF a = <<>> THEN <<<<>>>> ELSE <<<<>>, a>>]
                       /\ want' = n /\ pc' = "vars"
-                      /\ UNCHANGED <<cur, req, calls, pidx, i, hdr, present, text, sent>>
+                      /\ UNCHANGED <<cur, todo, req, calls, pidx, i, hdr, present, text, sent>>
 AddVar(f, b) == /\ pc = "vars"
                 /\ \A j \in 1..Len(rule.http[1]) : rule.http[1][j].field # f /\ ~HasDStar(rule.http[1][j].toks)
                 /\ rule' = [rule EXCEPT !.http[1] = Append(@, [field |-> f, toks |-> b])]
-                /\ pc' = IF Len(rule.http[1]) + 1 = want THEN "req" ELSE "vars"
-                /\ UNCHANGED <<want, cur, req, calls, pidx, i, hdr, present, text, sent>>
-ChooseReq(r) == /\ pc = "req"
-                /\ req' = r /\ calls' = calls + 1 /\ pidx' = 1 /\ sent' = NoneSent /\ pc' = "idle"
-                /\ i' = 0 /\ hdr' = {} /\ present' = FALSE /\ text' = <<>>
-                /\ UNCHANGED <<rule, want, cur>>
-Build == \/ \E e \in BOOLEAN : PickKind(e)
-         \/ \E n \in 0..MaxParams, b \in ExplicitBindings : PickExplicit(n, b)
-         \/ \E f \in ParamPaths, b \in Bases \cup {<<>>} : PickField(f, b)
-         \/ \E t \in TemplatesOn(cur.toks) : AddParam(t)
-         \/ \E n \in 1..MaxVars, a \in Additional : PickImplicit(n, a)
-         \/ \E f \in VarPaths, b \in VarToks : AddVar(f, b)
-         \/ \E r \in Reqs(rule) : ChooseReq(r)
+                /\ IF Len(rule.http[1]) + 1 = want THEN ToReq(rule') ELSE pc' = "vars" /\ UNCHANGED <<todo, req>>
+                /\ UNCHANGED <<want, cur, calls, pidx, i, hdr, present, text, sent>>
+(* the request: one value per field the rule reads (every other field stays empty) *)
+NextField == CHOOSE f \in todo : TRUE
+SetField(v) == /\ pc = "req" /\ todo # {}
+               /\ req' = [req EXCEPT ![NextField] = v] /\ todo' = todo \ {NextField}
+               /\ UNCHANGED <<pc, rule, want, cur, calls, pidx, i, hdr, present, text, sent>>
+StartCall == /\ pc = "req" /\ todo = {}
+             /\ calls' = calls + 1 /\ pidx' = 1 /\ sent' = NoneSent /\ pc' = "idle"
+             /\ i' = 0 /\ hdr' = {} /\ present' = FALSE /\ text' = <<>>
+             /\ UNCHANGED <<rule, want, cur, todo, req>>
+(* the guards are repeated in front of the quantifiers so that TLC does not enumerate the pools in states  *)
+(* where the step is not enabled anyway                                                                 *)
+Build == \/ pc = "kind"  /\ \E e \in BOOLEAN : PickKind(e)
+         \/ pc = "elen"  /\ \E n \in 0..MaxParams, b \in ExplicitBindings : PickExplicit(n, b)
+         \/ pc = "ptoks" /\ \E f \in ParamPaths, b \in Bases \cup {<<>>} : PickField(f, b)
+         \/ pc = "pcap"  /\ \E t \in TemplatesOn(cur.toks) : AddParam(t)
+         \/ pc = "ilen"  /\ \E n \in 1..MaxVars, a \in Additional : PickImplicit(n, a)
+         \/ pc = "vars"  /\ \E f \in VarPaths, b \in VarToks : AddVar(f, b)
+         \/ pc = "req" /\ todo # {} /\ \E v \in ValuesFor(rule, NextField) : SetField(v)
+         \/ StartCall
 
 (* ---- one call on one client path ---- *)
 Path == PathNames[pidx]
 NSteps == IF rule.explicit THEN Len(rule.params) ELSE Len(PrimaryVars(rule))
 Invoke == /\ pc = "idle" /\ pidx <= 3
           /\ pc' = "build" /\ i' = 0 /\ hdr' = {} /\ present' = FALSE /\ text' = <<>>
-          /\ UNCHANGED <<rule, want, cur, req, calls, pidx, sent>>
+          /\ UNCHANGED <<rule, want, cur, todo, req, calls, pidx, sent>>
 BuildParam == /\ pc = "build" /\ rule.explicit /\ i < NSteps
               /\ i' = i + 1 /\ hdr' = StepParam(hdr, rule.params[i + 1], req)
-              /\ UNCHANGED <<pc, rule, want, cur, req, calls, pidx, present, text, sent>>
+              /\ UNCHANGED <<pc, rule, want, cur, todo, req, calls, pidx, present, text, sent>>
 BuildVar == /\ pc = "build" /\ ~rule.explicit /\ i < NSteps
             /\ i' = i + 1 /\ hdr' = hdr \cup {ImplicitPair(PrimaryVars(rule)[i + 1], req)}
-            /\ UNCHANGED <<pc, rule, want, cur, req, calls, pidx, present, text, sent>>
+            /\ UNCHANGED <<pc, rule, want, cur, todo, req, calls, pidx, present, text, sent>>
 Drops == \/ (rule.explicit /\ hdr = {} /\ Mutant # "empty_header")
          \/ (Mutant = "async_drops_header" /\ Path = "async")
 Finish == /\ pc = "build" /\ i = NSteps
           /\ pc' = IF Drops THEN "send" ELSE "encode"
-          /\ UNCHANGED <<rule, want, cur, req, calls, pidx, i, hdr, present, text, sent>>
+          /\ UNCHANGED <<rule, want, cur, todo, req, calls, pidx, i, hdr, present, text, sent>>
 EncodeAs(t) == /\ pc = "encode"
                /\ text' = t /\ present' = TRUE /\ pc' = "send"
-               /\ UNCHANGED <<rule, want, cur, req, calls, pidx, i, hdr, sent>>
-Encode == \E order \in SetToSeqs(hdr) : EncodeAs(EncodeText(order))
+               /\ UNCHANGED <<rule, want, cur, todo, req, calls, pidx, i, hdr, sent>>
+Encode == pc = "encode" /\ \E order \in SetToSeqs(hdr) : EncodeAs(EncodeText(order))
 Send == /\ pc = "send"
         /\ sent' = [sent EXCEPT ![Path] = [st |-> "sent", present |-> present,
                                            pairs |-> IF present THEN Decode(text) ELSE {}]]
         /\ pidx' = pidx + 1 /\ pc' = IF pidx = 3 THEN "done" ELSE "idle"
-        /\ UNCHANGED <<rule, want, cur, req, calls, i, hdr, present, text>>
+        /\ UNCHANGED <<rule, want, cur, todo, req, calls, i, hdr, present, text>>
 Refuse == /\ pc \in {"encode", "send"} /\ Path = "rest" /\ ~RestMustSend(rule, req)
           /\ sent' = [sent EXCEPT ![Path] = [st |-> "refused", present |-> FALSE, pairs |-> {}]]
           /\ pidx' = pidx + 1 /\ pc' = IF pidx = 3 THEN "done" ELSE "idle"
-          /\ UNCHANGED <<rule, want, cur, req, calls, i, hdr, present, text>>
+          /\ UNCHANGED <<rule, want, cur, todo, req, calls, i, hdr, present, text>>
 Again == /\ pc = "done" /\ calls < MaxCalls
-         /\ pc' = "req"
-         /\ UNCHANGED <<rule, want, cur, req, calls, pidx, i, hdr, present, text, sent>>
+         /\ pc' = "req" /\ todo' = FieldsRead(rule) /\ req' = ZeroReq
+         /\ UNCHANGED <<rule, want, cur, calls, pidx, i, hdr, present, text, sent>>
 Call == Invoke \/ BuildParam \/ BuildVar \/ Finish \/ Encode \/ Send \/ Refuse
 Next == Build \/ Call \/ Again
 Spec == Init /\ [][Next]_vars
@@ -311,7 +326,7 @@ Spec == Init /\ [][Next]_vars
 (* The property, clause by clause (checked on every reachable state)       *)
 Got(p) == sent[p]
 Arrived == {p \in ToSet(PathNames) : sent[p].st = "sent"}
-Ready == pc \notin {"kind", "elen", "ilen", "ptoks", "pcap", "vars", "req"}
+Ready == pc \in {"idle", "done"}          \* the states right after something arrived (or was refused)
 
 \* explicit: each parameter whose field is non-empty and matches contributes its capture, last one wins per key
 Inv_Explicit == (Ready /\ rule.explicit) => \A p \in Arrived : Got(p).pairs = LastWins(rule.params, req)
@@ -337,7 +352,7 @@ Inv_Fold == (pc = "build" /\ rule.explicit) => hdr = LastWins(SubSeq(rule.params
 Inv_FoldDecl == (Ready /\ rule.explicit) => ExplicitHeader(rule.params, req) = LastWins(rule.params, req)
 \* sanity of the oracle itself: Matches/Capture agree with the generative reading of AIP-4222
 TemplatesInRule == {rule.params[j].tmpl : j \in 1..Len(rule.params)} \ {NoTemplate}
-Inv_MatchGen == pc = "req" =>
+Inv_MatchGen == (pc = "req" /\ todo = FieldsRead(rule) /\ calls = 0) =>
     \A t \in TemplatesInRule :
        /\ WFTemplate(t)
        /\ \A s \in {X, E}, tail \in {<<>>, <<Y>>, <<Y, NoSeg, Z>>} :
